@@ -70,6 +70,9 @@ void harness(void) {
 	VF_ASSUME(data_size <= VF_U_NMAX);
 	VF_FRESH_PTR(uint8_t, data, VF_U_NMAX);
 #else
+#ifdef VF_U_NSAFE
+	VF_ASSUME(data_size <= VF_U_NSAFE);
+#endif
 	VF_FRESH_PTR_OPT(uint8_t, data, data_size);
 #endif
 	UPDATE(ctx, data, data_size);
